@@ -60,6 +60,13 @@ impl RepetitionTable {
     }
 }
 
+#[cfg(flounder_verif)]
+impl RepetitionTable {
+    pub fn verif_xor(&self) -> u64 {
+        self.hashes.iter().fold(0, |a, h| a ^ h)
+    }
+}
+
 impl Default for RepetitionTable {
     fn default() -> Self {
         Self::new()
